@@ -428,8 +428,16 @@ def _pair_job(arg):
         except Exception as ex:  # the outcome of this fit is "raises <class>"
             pred, raised = raised_outcome(ex, ids), exc_text(ex)
         p, dd = observe(obj, owned, ids)
+        base = []
+        if (not raised and type(obj).__name__ in ("SklearnClassifier", "SklearnRegressor", "SklearnNormalRegressor")
+                and task in ("clf", "reg") and (task == "reg" or obj.classes is not None)):
+            # the wrapped estimator fitted directly on the labeled rows (see Bare)
+            bare = Bare(obj.estimator, task)
+            bare.step("Fit", X, y, w, use_w)
+            base = bare.pred()
+            n_eval += 1
         events.append({"ev": "Fit", "d": D, "pids": p, "dids": dd, "pred": pred, "ref": pred,
-                       "refcalls": [["Fit", D]], "match": k, "base": []})
+                       "refcalls": [["Fit", D]], "match": k, "base": base})
         if raised:
             events[-1]["raised"] = raised
     rel = relation_tags(d, e)
